@@ -131,6 +131,9 @@ func runLim(svc string, reqs []string, concurrent bool) {
 	one := func(i int, r string) {
 		p := strings.SplitN(r, ":", 2)
 		ip := net.ParseIP(p[0])
+		if v4 := ip.To4(); v4 != nil && i%2 == 1 {
+			ip = v4 // the same IPv4 source in its 4-byte and in its 16-byte form (both occur on real listeners)
+		}
 		raddr := &net.UDPAddr{IP: ip, Port: 1024 + (i*7919)%60000}
 		if q := strings.SplitN(p[1], "@", 2); len(q) == 2 { // kind@port: a fixed source port
 			p[1] = q[0]
